@@ -22,7 +22,7 @@ ASSUMPTIONS = [
     'population dimension names are set to the likelihood parameter names (as ProblemModellingController does)',
     'individual parameter values are positive (support of the multiplicative / log-normal error models)']
 REQUIRED = ['kind:gauss', 'kind:lognorm', 'kind:trunc', 'kind:pooled', 'kind:hetero', 'cov', 'comp', 'red', 'bare',
-            'noncentered', 'mixed_special', 'special_not_last', 'n_ids=1', 'noncentered_zero_scale', 'reduced_part:all_fixed']
+            'noncentered', 'mixed_special', 'special_not_last', 'n_ids=1', 'noncentered_zero_scale', 'reduced_part:all_fixed', 'hetero_last_explicit']
 
 
 @st.composite
@@ -48,6 +48,18 @@ def extra_cases(tier):
             out.append(dict(pop=pop, n_ids=n_ids, lls=[ll] * n_ids, ids=None, cov=None,
                             vec=[0.5 + 0.1 * i for i in range(n_ids)] + [1.0 + 0.2 * i for i in range(n_ids)] + [0.5],
                             prior=[dict(kind='lognormal', a=0.0, b=1.0)] * (n_ids + 1), late=True))
+    # two heterogeneous parts of which only the LAST is constructed with the number of individuals
+    # (HeterogeneousModel(n_ids=k)); the composed model passes the number on to the first
+    ll3 = dict(n_out=1, n_par=2, ems=[dict(kind='gauss', fixed=None)], times=[[0.5, 1.0]], obs=[[1.0, 1.4]],
+               tmode='single', tied=False)
+    for n_ids in (2, 3):
+        for middle in (dict(kind='gauss', n_dim=1, centered=True), dict(kind='pooled', n_dim=1)):
+            pop = dict(kind='comp', parts=[dict(kind='hetero', n_dim=1), middle, dict(kind='hetero', n_dim=1)])
+            bottom = [1.0 + 0.2 * i for i in range(n_ids)] if middle['kind'] == 'gauss' else []
+            top = [0.5 + 0.1 * i for i in range(n_ids)] + ([1.1, 0.4] if middle['kind'] == 'gauss' else [1.2]) + \
+                [0.6 + 0.05 * i for i in range(n_ids)]
+            out.append(dict(pop=pop, n_ids=n_ids, lls=[ll3] * n_ids, ids=None, cov=None, vec=bottom + top,
+                            prior=[dict(kind='lognormal', a=0.0, b=1.0)] * len(top), late=False, explicit_last=True))
     return out
 
 
